@@ -1,13 +1,14 @@
 #!/bin/sh
 # MANIFEST.setup_cmd — build the framework offline from files on disk.
-set -e
+# Every check rebuilds what it needs itself; setup only warms the caches, so a unit that fails to
+# build here is reported by its own check and does not stop the others (-k / || true).
 cd /verif
 export CARGO_NET_OFFLINE=true
 mkdir -p .cache/extract evidence replays
 python3 translator/rs2v.py || true          # a broken tie is reported by the checks, not by setup
 for f in coq/Run/*Extract.v; do u=$(basename $f Extract.v | tr A-Z a-z); mkdir -p .cache/extract/$u; done
-bin/cm                                    # full .vo build of the whole development
-for f in coq/Run/*Extract.v; do u=$(basename $f Extract.v | tr A-Z a-z); runner/build.sh $u; done
+CM_TIMEOUT=3000 bin/cm -k || true         # full .vo build of the whole development
+for f in coq/Run/*Extract.v; do u=$(basename $f Extract.v | tr A-Z a-z); runner/build.sh $u || true; done
 cp /repo/Cargo.lock harness/Cargo.lock
-( cd harness && cargo build --release --offline --features hooks --bins )
+( cd harness && for b in src/bin/vh_*.rs; do cargo build --release --offline --features hooks --bin $(basename $b .rs) || true; done )
 echo setup-ok
